@@ -71,6 +71,10 @@ def gen_union(rnd):
             b[3] = [["star"]]
         else:
             b[3] = [item(col("a")), item(col("s"))]
+        if not star and rnd.random() < 0.15:
+            # a grouped branch: its GROUP BY belongs to the branch alone (the union and the other branches see rows, not groups)
+            b[3] = [item(col("a")), item(col("s"))]
+            b[6] = [["a", ["a"]], ["s", ["s"]]]
         branches.append(b)
     q = branches[0]
     flags = []
